@@ -92,6 +92,7 @@ Record cfg := {
   c_qlimits : list nat;     (* per queue; 0 = unlimited *)
   c_icp : Z; c_fcp : Z;
   c_start : Z;              (* start cycle point (= c_icp for a cold start) *)
+  c_future : list Z;        (* per task name: its largest future trigger offset (a[+Pn] => t), 0 if none *)
 }.
 
 Fixpoint find_inst (l : list inst) (t : tid) : option inst :=
@@ -287,7 +288,7 @@ Definition ready (i : inst) (p : ptask) : bool :=
   status_eqb (p_status p) Waiting && negb (p_held p) && negb (p_runahead p) && prereqs_ok i p.
 
 (* runahead limit specification: (n+1)-th smallest sequence point >= base, or the last one
-   if there are fewer; base itself if there is none; capped at the stop point *)
+   if there are fewer; base itself if there is none; plus the future-trigger adjustment; capped at the stop point *)
 Fixpoint min_point (l : list ptask) : option Z :=
   match l with
   | [] => None
@@ -301,6 +302,11 @@ Fixpoint nth_or_last (n : nat) (l : list Z) (dflt : Z) : Z :=
   | [] => dflt
   | x :: r => match n with O => x | S n' => nth_or_last n' r x end
   end.
+(* tasks triggered off FUTURE instances (a[+P1] => b) would deadlock a tight limit: while such a task is
+   in the pool the limit is pushed out by the largest such offset among the pooled tasks *)
+Definition fut_of (c : cfg) (p : ptask) : Z := nth (snd (p_id p)) (c_future c) 0.
+Definition max_future (c : cfg) (pl : list ptask) : Z :=
+  fold_right (fun p m => Z.max (fut_of c p) m) 0 pl.
 Definition spec_limit (c : cfg) (s : mstate) : option Z :=
   let base := match min_point (pool s) with
               | Some b => Some b
@@ -311,7 +317,7 @@ Definition spec_limit (c : cfg) (s : mstate) : option Z :=
   | Some b =>
       let cand := filter (fun x => Z.leb b x) (c_points c) in
       let l := nth_or_last (c_runahead c) cand b in
-      Some (Z.min l (stop_point s))
+      Some (Z.min (l + max_future c (pool s)) (stop_point s))
   end.
 
 (* queue accounting: members of queue q that are active or released-awaiting-prep *)
